@@ -18,7 +18,7 @@ var _ io.Reader
 func main(){b,_:=json.Marshal(T{1});fmt.Println(string(b),reflect.TypeOf(T{}).Name(),strings.ToUpper(os.Args[0][:0]),strconv.Itoa(1),sort.IsSorted(nil),errors.New("x"),runtime.NumCPU()>0, sync.Mutex{}, time.Duration(1), bytes.NewBuffer(nil).Len())}
 '''
 configs = [[], ["-tiny"], ["-literals"], ["-seed=AAAAAAAAAAA"], ["-literals", "-tiny", "-seed=AAAAAAAAAAA"]]
-if "--full" not in sys.argv:
+if "--min" in sys.argv:
     configs = configs[:1]
 d = g.newdir()
 write_module(d, {"main.go": FAT})
